@@ -44,6 +44,9 @@ type c20World struct {
 	waiters   []*c20Actor
 	waiterCh  []chan struct{} // retirement channels, in spawn order
 	pendingCh chan struct{}
+	// replay: a retirement the model has completed (RetireDone) whose channel is closed for real only when the model lets
+	// the waiter wake (RWake) - the waiter's first statement, flag.Store(false), has no gate in front of it
+	retired map[chan struct{}]bool
 }
 
 func newC20Actor(name string) *c20Actor {
@@ -286,6 +289,17 @@ func newC20Run() *c20Run {
 
 func (r *c20Run) close() {
 	r.w.free.Store(true)
+	// retirements the history left unfinished: let their waiters go
+	for _, ch := range append(append([]chan struct{}(nil), r.w.waiterCh...), r.w.pendingCh) {
+		if ch == nil {
+			continue
+		}
+		select {
+		case <-ch:
+		default:
+			close(ch)
+		}
+	}
 	for _, a := range append([]*c20Actor{r.w.main, r.w.wkr}, r.w.waiters...) {
 		select {
 		case a.release <- struct{}{}:
@@ -508,6 +522,9 @@ func (r *c20Run) do(act c20Action) string {
 		}
 		return exp(g, "end")
 	case "RetireDone":
+		if w.retired == nil {
+			w.retired = map[chan struct{}]bool{}
+		}
 		if act.W == 0 {
 			w.mu.Lock()
 			ch := w.pendingCh
@@ -515,17 +532,27 @@ func (r *c20Run) do(act c20Action) string {
 			if ch == nil {
 				return "RetireDone: no pending retirement channel"
 			}
-			close(ch)
-			// stays the pending channel (already closed) until finishReloadSuccess takes it
+			w.retired[ch] = true
+			// stays the pending channel until finishReloadSuccess takes it
 			return ""
 		}
 		if act.W-1 >= len(w.waiterCh) {
 			return "RetireDone: unknown waiter"
 		}
-		close(w.waiterCh[act.W-1])
+		w.retired[w.waiterCh[act.W-1]] = true
 		return ""
 	case "RWake":
-		// the waiter goroutine wakes by itself once its channel is closed and runs to the EndSuppression gate
+		// the retirement channel is closed now: the waiter goroutine wakes, clears the admission flag and runs to the
+		// EndSuppression gate
+		if act.W-1 >= len(w.waiterCh) {
+			return "RWake: unknown waiter"
+		}
+		if ch := w.waiterCh[act.W-1]; w.retired[ch] {
+			delete(w.retired, ch)
+			close(ch)
+		} else {
+			return "RWake: the retirement of this waiter has not completed in the real run"
+		}
 		r.collectWaiters()
 		if act.W-1 >= len(w.waiters) {
 			return "RWake: the waiter goroutine did not show up"
